@@ -4,6 +4,8 @@ import Ts.Spec.PesSpec
 import Ts.Lemmas.C14c
 import Ts.Gen.Consts
 import Ts.Gen.Tables
+import Ts.Lemmas.RevC
+import Ts.Spec.TimeSpec
 /-!
 # C14 — PES packet header fields are bit-exact, and rejection is exact
 
@@ -27,9 +29,28 @@ Two deviations are kept visible:
 * `pes_extension()` and `payload()` are *not* total on receivers that `from_bytes` would reject
   (`pesExtension_panics_unaccepted`, `payloadOffset_panics_unaccepted`); such receivers cannot be
   constructed through the public API, so these are not reachable panics.
+
+Readings (review C; section "readings" below, specification text in `Ts/Spec/PesSpec.lean`):
+in four places the crate checks or exposes less than Table 2-21 defines, and the specification
+`parse` follows the crate.  None is treated as a defect; each is pinned by a theorem:
+* **trick mode, reserved control codes 5..7**: `DsmTrickMode::Reserved` carries the 3-bit control
+  code; the five data bits are not observable (`trick_reserved_exposes_control`,
+  `trick_byte_data_unobservable`, `trickAt_eq_exposed`).  For codes 0..4 all eight bits are exposed.
+* **PTS/DTS 4-bit prefix** (`'0010'`, `'0011'`, `'0001'`): not examined by `pts_dts()`
+  (`pts_dts_ignores_prefix`, `pts_dts_prefix_not_checked`), whereas `Timestamp::from_pts_bytes`
+  insists on `'0010'` and so rejects the `'0011'` PTS of a pair (`from_pts_bytes_rejects_pair_prefix`).
+* **ESCR and ES_rate marker bits**: not examined (`escr_ignores_markers`, `es_rate_ignores_markers`,
+  `*_markers_not_checked`), unlike the PTS/DTS and additional_copy_info markers.
+* **Boolean-encoded enums** (`data_alignment_indicator`, `copyright`, `original_or_copy`):
+  `polarity_pinned` states which bit value the model's `true` stands for; that `true` is mapped to
+  the right Rust variant is established by the differential harness only.
+Also: error payloads (`NotEnoughData { requested, available }`) are not modelled, and
+`pes_extension()` is only described as a byte range.
+Not tied to regenerated constants (none exists in `Ts/Gen/Consts.lean`): the field sizes 1
+(`DSM_TRICK_MODE_SIZE`), 1 (`ADDITIONAL_COPY_INFO_SIZE`), 2 (`PREVIOUS_PES_PACKET_CRC_SIZE`).
 -/
 namespace Ts.Props.C14
-open Ts Ts.Spec Ts.Spec.PesSpec Ts.Lemmas.C14
+open Ts Ts.Spec Ts.Spec.PesSpec Ts.Lemmas.C14 Ts.Lemmas.RevC Ts.Spec.TimeSpec
 
 /-! ### ties to the constants regenerated from `/repo/src/pes.rs` -/
 theorem tie_fixed_header : Ts.Gen.pesFixedHeaderSize = 6 ∧ Pes.HDR_FIXED = 6 := by decide
@@ -191,6 +212,185 @@ theorem copyright_exact_false :
   rw [h2] at h1
   cases h1
 
+/-! ### readings
+
+#### trick mode -/
+
+/-- the trick-mode value `parse` reports is the standard's full reading of the byte (`trickStdAt`,
+which keeps the five data bits of a reserved control code) with exactly those five bits forgotten
+(`TrickStd.exposed`) -/
+theorem trickAt_eq_exposed (c : Bytes) (p : Nat) : trickAt c p = (trickStdAt c p).exposed :=
+  trickAt_exposed c p
+
+/-- `exposed` loses nothing except on reserved control codes: two full readings with the same
+exposed value are equal unless the first is a reserved code -/
+theorem exposed_injective_off_reserved (a b : TrickStd) (h : a.exposed = b.exposed)
+    (ha : ∀ k d, a ≠ .reserved k d) : a = b := by
+  cases a <;> cases b <;> simp only [TrickStd.exposed] at h <;> try cases h
+  all_goals first | rfl | exact absurd rfl (ha _ _)
+
+/-- … and on a reserved code it forgets the data bits, whatever they are -/
+theorem exposed_forgets_reserved_data (k d d' : Nat) :
+    (TrickStd.reserved k d).exposed = (TrickStd.reserved k d').exposed := rfl
+
+/-- the code's decode of a trick-mode byte `b` whose control code `b / 32` (= `b >> 5`) is 5, 6 or
+7: `Reserved { reserved: control }`, no panic -/
+theorem trick_byte_reserved (b : Nat) (hb : b < 256) (h : 5 ≤ b / 32) :
+    Pes.trickOfByte b = .ok (.reserved (b / 32)) :=
+  ok_of_okVal (tbl_trick_reserved ⟨b, hb⟩ h)
+
+/-- hence two trick-mode bytes with the same reserved control code decode to the same value: the
+five data bits are unobservable -/
+theorem trick_byte_data_unobservable (b b' : Nat) (hb : b < 256) (hb' : b' < 256) (h : 5 ≤ b / 32)
+    (he : b / 32 = b' / 32) : Pes.trickOfByte b = Pes.trickOfByte b' := by
+  rw [trick_byte_reserved b hb h, trick_byte_reserved b' hb' (by omega), he]
+
+/-- **Reserved trick-mode control codes expose the control code.**  For every receiver `c` of at
+least three bytes whose DSM_trick_mode_flag is set, whose trick-mode byte (at `trickPos`, computed
+from the flags) lies inside the header (`≤ limit c`), and whose `trick_mode_control` (the first 3
+bits of that byte) is ≥ 5: `dsm_trick_mode()` returns `Reserved` carrying exactly that 3-bit
+control code.  Bits 3..8 of the byte do not appear in the result. -/
+theorem trick_reserved_exposes_control (c : Bytes) (h3 : 3 ≤ c.length)
+    (hflag : (flagsOf c).trick = true)
+    (hfit : trickPos (flagsOf c) + 1 ≤ limit c)
+    (hres : 5 ≤ readBits c (8 * trickPos (flagsOf c)) 3) :
+    Pes.dsmTrickMode c = .ok (.ok (.reserved (readBits c (8 * trickPos (flagsOf c)) 3))) := by
+  rw [dsmTrickMode_exact c h3, parse_trick, ← trickPos_eq]
+  unfold fieldAt
+  simp only [hflag, Bool.not_true, Bool.false_eq_true, if_false, hfit, if_true, resOf]
+  rw [trickAt_reserved c _ hres]; rfl
+
+/-- accessor-level corollary: two receivers satisfying the hypotheses above with the same reserved
+control code give the same `dsm_trick_mode()` result, whatever their five data bits -/
+theorem trick_reserved_data_unobservable (c c' : Bytes) (h3 : 3 ≤ c.length) (h3' : 3 ≤ c'.length)
+    (hflag : (flagsOf c).trick = true) (hflag' : (flagsOf c').trick = true)
+    (hfit : trickPos (flagsOf c) + 1 ≤ limit c) (hfit' : trickPos (flagsOf c') + 1 ≤ limit c')
+    (hres : 5 ≤ readBits c (8 * trickPos (flagsOf c)) 3)
+    (heq : readBits c (8 * trickPos (flagsOf c)) 3 = readBits c' (8 * trickPos (flagsOf c')) 3) :
+    Pes.dsmTrickMode c = Pes.dsmTrickMode c' := by
+  rw [trick_reserved_exposes_control c h3 hflag hfit hres,
+    trick_reserved_exposes_control c' h3' hflag' hfit' (by omega), heq]
+
+/-- for every control code the accessor returns the exposed part of the standard's full reading
+(for codes 0..4 that is all eight bits) -/
+theorem trick_exposes_std_reading (c : Bytes) (h3 : 3 ≤ c.length)
+    (hflag : (flagsOf c).trick = true)
+    (hfit : trickPos (flagsOf c) + 1 ≤ limit c) :
+    Pes.dsmTrickMode c = .ok (.ok (trickConv (trickStdAt c (trickPos (flagsOf c))).exposed)) := by
+  rw [dsmTrickMode_exact c h3, parse_trick, ← trickPos_eq]
+  unfold fieldAt
+  simp only [hflag, Bool.not_true, Bool.false_eq_true, if_false, hfit, if_true, resOf]
+  rw [trickAt_exposed]
+
+
+/-! #### PTS / DTS prefix -/
+
+/-- **`pts_dts()` ignores the 4-bit prefix.**  A header with PTS_DTS_flags `'10'` followed by the
+5-byte time stamp structure carrying ANY prefix `pfx < 16` and any 33-bit value `v` (`encodeTs`
+of `Ts/Spec/TimeSpec.lean`, markers set) yields `PtsOnly(Ok(v))`. -/
+theorem pts_dts_ignores_prefix (pfx v : Nat) (hp : pfx < 16) (hv : v < 2 ^ 33) :
+    Pes.ptsDts ([0x80, 0x80, 0x05] ++ encodeTs pfx v) = .ok (.ok (.ptsOnly (.ok v))) := by
+  have hb := Ts.Lemmas.C15.fromBytes_encode pfx v [] hp hv
+  rw [List.append_nil] at hb
+  have e : Pes.ptsDts ([0x80, 0x80, 0x05] ++ encodeTs pfx v)
+      = (do let t ← Time.fromBytes (encodeTs pfx v); pure (.ok (.ptsOnly t))) := rfl
+  rw [e, hb]; rfl
+
+/-- the same for PTS_DTS_flags `'11'`: any two prefixes -/
+theorem pts_dts_ignores_prefix_both (p1 p2 v1 v2 : Nat) (hp1 : p1 < 16) (hp2 : p2 < 16)
+    (hv1 : v1 < 2 ^ 33) (hv2 : v2 < 2 ^ 33) :
+    Pes.ptsDts ([0x80, 0xC0, 0x0A] ++ encodeTs p1 v1 ++ encodeTs p2 v2)
+      = .ok (.ok (.both (.ok v1) (.ok v2))) := by
+  have hb1 := Ts.Lemmas.C15.fromBytes_encode p1 v1 [] hp1 hv1
+  have hb2 := Ts.Lemmas.C15.fromBytes_encode p2 v2 [] hp2 hv2
+  rw [List.append_nil] at hb1 hb2
+  have e : Pes.ptsDts ([0x80, 0xC0, 0x0A] ++ encodeTs p1 v1 ++ encodeTs p2 v2)
+      = (do let p ← Time.fromBytes (encodeTs p1 v1)
+            let d ← Time.fromBytes (encodeTs p2 v2)
+            pure (.ok (.both p d))) := rfl
+  rw [e, hb1, hb2]; rfl
+
+
+/-- a header `from_bytes` accepts whose PTS carries the prefix `'1111'` (the standard demands
+`'0010'`): `pts_dts()` returns the value without complaint -/
+theorem pts_dts_prefix_not_checked :
+    parsedAccepted [0x80, 0x80, 0x05, 0xF1, 0x00, 0x01, 0x00, 0x01] ∧
+    ¬ ptsDtsPrefixStd [0x80, 0x80, 0x05, 0xF1, 0x00, 0x01, 0x00, 0x01] ∧
+    Pes.ptsDts [0x80, 0x80, 0x05, 0xF1, 0x00, 0x01, 0x00, 0x01] = .ok (.ok (.ptsOnly (.ok 0))) :=
+  ⟨by decide +kernel, by decide +kernel, rfl⟩
+
+/-- the public helper `Timestamp::from_pts_bytes` refuses the standard-conforming `'0011'` PTS of a
+PTS+DTS pair (any 33-bit value), while `pts_dts()` on a header carrying that very pair succeeds -/
+theorem from_pts_bytes_rejects_pair_prefix (v w : Nat) (hv : v < 2 ^ 33) (hw : w < 2 ^ 33) :
+    Time.fromPtsBytes (encodeTs 3 v) = .ok (.error (.incorrectPrefix 2 3)) ∧
+    Time.fromDtsBytes (encodeTs 1 w) = .ok (.ok w) ∧
+    Pes.ptsDts ([0x80, 0xC0, 0x0A] ++ encodeTs 3 v ++ encodeTs 1 w) = .ok (.ok (.both (.ok v) (.ok w))) := by
+  refine ⟨?_, ?_, pts_dts_ignores_prefix_both 3 1 v w (by omega) (by omega) hv hw⟩
+  · obtain ⟨_, _, _, hp, _⟩ := Ts.Lemmas.C15.encodeTs_fields 3 v [] (by omega) hv
+    rw [List.append_nil] at hp
+    rw [Ts.Lemmas.C15.fromPts_unfold _ (by rw [Ts.Lemmas.C15.encodeTs_length]; omega), hp]
+    rfl
+  · obtain ⟨_, _, _, hp, _⟩ := Ts.Lemmas.C15.encodeTs_fields 1 w [] (by omega) hw
+    have hb := Ts.Lemmas.C15.fromBytes_encode 1 w [] (by omega) hw
+    rw [List.append_nil] at hp hb
+    rw [Ts.Lemmas.C15.fromDts_unfold _ (by rw [Ts.Lemmas.C15.encodeTs_length]; omega), hp, if_pos rfl, hb]
+
+/-! #### ESCR / ES_rate marker bits -/
+
+/-- **ESCR marker bits are not inputs of the value.**  On the code's own expressions: forcing the
+four marker bits to 1 (byte 0, 2, 4 mask `0x04` = bit offsets 5, 21, 37; byte 5 mask `0x01` = bit
+offset 47) changes neither base nor extension.  Hence two ESCR fields that differ only in marker
+bits decode to the same `ClockRef`, and no error is ever reported for a cleared marker. -/
+theorem escr_ignores_markers (s0 s1 s2 s3 s4 s5 : Nat) (h0 : s0 < 256) (h2 : s2 < 256) (h4 : s4 < 256)
+    (h5 : s5 < 256) :
+    Pes.escrBase (s0 ||| 4) s1 (s2 ||| 4) s3 (s4 ||| 4) = Pes.escrBase s0 s1 s2 s3 s4 ∧
+    Pes.escrExt (s4 ||| 4) (s5 ||| 1) = Pes.escrExt s4 s5 :=
+  escr_markers_masked s0 s1 s2 s3 s4 s5 h0 h2 h4 h5
+
+/-- **ES_rate marker bits are not inputs of the value** (byte 0 mask `0x80` = bit 0, byte 2 mask
+`0x01` = bit 23) -/
+theorem es_rate_ignores_markers (s0 s1 s2 : Nat) (h0 : s0 < 256) (h2 : s2 < 256) :
+    Pes.esRateVal (s0 ||| 0x80) s1 (s2 ||| 1) = Pes.esRateVal s0 s1 s2 :=
+  esRate_markers_masked s0 s1 s2 h0 h2
+
+/-- accepted header, all four ESCR marker bits CLEAR and all SET: same value, no error -/
+theorem escr_markers_not_checked :
+    parsedAccepted [0x80, 0x20, 0x06, 0x08, 0x00, 0x08, 0x00, 0x08, 0x02] ∧
+    ¬ escrMarkersStd [0x80, 0x20, 0x06, 0x08, 0x00, 0x08, 0x00, 0x08, 0x02] 3 ∧
+    Pes.escr [0x80, 0x20, 0x06, 0x08, 0x00, 0x08, 0x00, 0x08, 0x02] = .ok (.ok ⟨1073774593, 1⟩) ∧
+    escrMarkersStd [0x80, 0x20, 0x06, 0x0C, 0x00, 0x0C, 0x00, 0x0C, 0x03] 3 ∧
+    Pes.escr [0x80, 0x20, 0x06, 0x0C, 0x00, 0x0C, 0x00, 0x0C, 0x03] = .ok (.ok ⟨1073774593, 1⟩) :=
+  ⟨by decide +kernel, by decide +kernel, rfl, by decide +kernel, rfl⟩
+
+/-- accepted header, both ES_rate marker bits CLEAR and both SET: same value, no error -/
+theorem es_rate_markers_not_checked :
+    parsedAccepted [0x80, 0x10, 0x03, 0x00, 0x00, 0x02] ∧
+    ¬ esRateMarkersStd [0x80, 0x10, 0x03, 0x00, 0x00, 0x02] 3 ∧
+    Pes.esRate [0x80, 0x10, 0x03, 0x00, 0x00, 0x02] = .ok (.ok 1) ∧
+    esRateMarkersStd [0x80, 0x10, 0x03, 0x80, 0x00, 0x03] 3 ∧
+    Pes.esRate [0x80, 0x10, 0x03, 0x80, 0x00, 0x03] = .ok (.ok 1) :=
+  ⟨by decide +kernel, by decide +kernel, rfl, by decide +kernel, rfl⟩
+
+/-! #### Boolean-encoded enums -/
+
+/-- What the model's Booleans stand for (on every receiver of ≥ 3 bytes), bit numbers within the
+first byte of the optional header:
+* `dataAlignment = true`  ⇔ data_alignment_indicator (bit 5) = 1   — Rust `DataAlignment::Aligned`
+* `copyrightUndefined = true` ⇔ copyright (bit 6) = 1 — Rust `Copyright::Undefined` (finding F5: inverted)
+* `original = true`       ⇔ original_or_copy (bit 7) = 1           — Rust `OriginalOrCopy::Original`
+* `pesPriority`           = PES_priority (bit 4) as 0/1.
+The Rust variant names are the harness's mapping; an arm swap in the Rust source would be caught by
+the differential harness, not by these theorems. -/
+theorem polarity_pinned (c : Bytes) (h3 : 3 ≤ c.length) :
+    Pes.dataAlignment c = .ok (readBits c 5 1 == 1) ∧
+    Pes.copyrightUndefined c = .ok (readBits c 6 1 == 1) ∧
+    Pes.original c = .ok (readBits c 7 1 == 1) ∧
+    Pes.pesPriority c = .ok (readBits c 4 1) := by
+  obtain ⟨a, b, d, _⟩ := pes_fields_exact_partial c h3
+  obtain ⟨p1, p2, _, p4⟩ := parse_bits c
+  rw [a, b, d, p1, p2, p4]
+  exact ⟨rfl, copyright_pinned c h3, rfl, rfl⟩
+
 /-! ### non-vacuity -/
 
 /-- '10', priority 1, aligned, copyright 0, original; all flags set (PTS_DTS '11');
@@ -269,6 +469,30 @@ example : (parse [0x80, 0x80, 0x05, 0x21, 0x00, 0x00, 0x00, 0x01]).ptsDts
 example : (parse [0x80, 0x04, 0x01, 0x2A]).copyInfo = .present .markerCleared ∧
     Pes.additionalCopyInfo [0x80, 0x04, 0x01, 0x2A] = .ok (.error .markerBitNotSet) :=
   ⟨by decide +kernel, rfl⟩
+
+/-! #### examples for the readings -/
+/-- trick-mode bytes 0xA0 and 0xBF: control 5, data bits 00000 resp. 11111 — same API value -/
+example : Pes.dsmTrickMode [0x80, 0x08, 0x01, 0xA0] = .ok (.ok (.reserved 5))
+    ∧ Pes.dsmTrickMode [0x80, 0x08, 0x01, 0xBF] = .ok (.ok (.reserved 5)) := ⟨rfl, rfl⟩
+example : trickStdAt [0x80, 0x08, 0x01, 0xA0] 3 = .reserved 5 0
+    ∧ trickStdAt [0x80, 0x08, 0x01, 0xBF] 3 = .reserved 5 31 := by decide +kernel
+/-- the hypotheses of `trick_reserved_exposes_control` hold for them -/
+example : (flagsOf [0x80, 0x08, 0x01, 0xBF]).trick = true
+    ∧ trickPos (flagsOf [0x80, 0x08, 0x01, 0xBF]) + 1 ≤ limit [0x80, 0x08, 0x01, 0xBF]
+    ∧ readBits [0x80, 0x08, 0x01, 0xBF] (8 * trickPos (flagsOf [0x80, 0x08, 0x01, 0xBF])) 3 = 5 := by
+  decide +kernel
+/-- control 7 (0xE5) is `Reserved { 7 }`; control 4 (0x9F) exposes all five data bits -/
+example : Pes.dsmTrickMode [0x80, 0x08, 0x01, 0xE5] = .ok (.ok (.reserved 7))
+    ∧ Pes.dsmTrickMode [0x80, 0x08, 0x01, 0x9F] = .ok (.ok (.slowReverse 31)) := ⟨rfl, rfl⟩
+/-- `exC` (control 0, fast_forward): `trick_exposes_std_reading` applies, all eight bits exposed -/
+example : (flagsOf exC).trick = true ∧ trickPos (flagsOf exC) + 1 ≤ limit exC
+    ∧ (trickStdAt exC (trickPos (flagsOf exC))).exposed = .fastForward 2 true 3 := by decide +kernel
+example : trickPos (flagsOf exC) = 22 ∧ (encodeTs 3 0x123456789).length = 5 := by decide +kernel
+example : Pes.ptsDts ([0x80, 0x80, 0x05] ++ encodeTs 15 0x123456789) = .ok (.ok (.ptsOnly (.ok 0x123456789))) :=
+  pts_dts_ignores_prefix 15 _ (by decide) (by decide)
+/-- the standard-conforming pair ('0011', '0001') satisfies `ptsDtsPrefixStd` -/
+example : ptsDtsPrefixStd ([0x80, 0xC0, 0x0A] ++ encodeTs 3 7 ++ encodeTs 1 5) := by decide +kernel
+
 
 /-! ### tie to the value table regenerated from `StreamId::is_parsed` in `/repo/src/pes.rs` -/
 /-- the stream ids the SOURCE lists as carrying no optional header are exactly those of the model
